@@ -306,6 +306,7 @@ func runC06(b *runner.Batch) {
 	// scope, so the nested call is witnessed too). The outer tick has stored its epoch before it notifies anybody, so a
 	// nested newEpoch(ep+d) is a tick of its own iff d >= 1 and makes the whole transaction fail otherwise (seeded change
 	// C06-7: notification moved in front of the publication).
+	histLen := int64(10) // the deployed default
 	reentrantTick := func(d int64) {
 		var armed util.Uint160
 		k := -1
@@ -376,7 +377,8 @@ func runC06(b *runner.Batch) {
 				}
 				e.m.tickBlock = world.Int64(leb.Top())
 				// the outer epoch's structured map is a published map too
-				if ln := e.w.Read(e.nm, "listNodes", ep); ln.OK() && len(ln.Stack) == 1 {
+				// (while the history is long enough to hold it: the inner tick evicts the list of epoch ep+d-count)
+				if ln := e.w.Read(e.nm, "listNodes", ep); ln.OK() && len(ln.Stack) == 1 && histLen > d {
 					b.Read(1)
 					if g, err := parseV2List(ln.Stack[0]); err != nil || !g.equal(e.m.hist2[ep]) {
 						b.Violation(fmt.Sprintf("nested tick: listNodes(%d) differs from the map published at the outer epoch", ep), e.detail(rs, nil))
@@ -425,6 +427,17 @@ func runC06(b *runner.Batch) {
 		case k < 10 && len(e.probes) > 0:
 			p := runner.Pick(b.Rng, e.probes)
 			e.setReject(p, !e.m.reject[p])
+		case k < 13 && b.Rng.IntN(3) == 0:
+			// the length of the map history is changed (C08 judges the history; here only the tick after it matters: the
+			// current map is where the readers look for it whatever the length; seeded change C06-9: the ring wrapping at
+			// the compile-time default)
+			c := int64(1 + b.Rng.IntN(12))
+			if r := e.w.Invoke(e.w.Alpha(), e.nm, "updateSnapshotCount", c); r.Halted() {
+				histLen = c
+				b.Hit("history-length-changed-between-ticks")
+			}
+			b.Tx(1)
+			e.checkNetmapState(nil)
 		case k < 12:
 			if len(e.probes) > 0 && b.Rng.IntN(3) != 0 {
 				subscribe(runner.Pick(b.Rng, e.probes), e.pickAlpha(8), true)
